@@ -336,6 +336,42 @@ pub type T {
 }
 "##.to_string())]));
 
+    c.push(("raw-identifiers", vec![("m", r##"
+#[address(0x10)]
+pub extern r#static: u32;
+pub type r#struct {
+    pub r#type: u32,
+}
+impl r#struct {
+    #[address(0x20)]
+    pub fn r#fn(&self, r#in: u32) -> u32;
+}
+#[copyable]
+pub enum r#enum: u32 {
+    r#match,
+    B,
+}
+pub type r#fn {
+    vftable {
+        pub fn r#loop(&self);
+    },
+}
+pub type M1 {
+    #[base]
+    pub r#type: r#struct,
+}
+pub type M2 {
+    #[base]
+    pub r#type: r#struct,
+}
+pub type r#loop {
+    #[base]
+    pub r#if: M1,
+    #[base]
+    pub r#else: M2,
+}
+"##.to_string())]));
+
     c.push(("diamond", vec![("m", r##"
 pub type Root {
     pub r: u32,
